@@ -56,7 +56,7 @@ def app(f: str, *args: str) -> str:
     return "(" + " ".join((f,) + args) + ")"
 
 
-_NUM = re.compile(r"\((\d+),\s*(\d+)\)")
+_NUM = re.compile(r"\(\s*(\d+)(?:%nat)?\s*,\s*(\d+)(?:%nat)?\s*\)")
 
 
 def parse_pairs(text: str):
